@@ -479,7 +479,7 @@ func runC01Placement(c *cluster, placed []Placed, emit emitter, rng *rand.Rand) 
 	}
 	for _, entry := range c.ids() {
 		for _, target := range c01endpoints {
-			for _, mode := range []string{"host", "header", "tcp"} {
+			for _, mode := range []string{"host", "header", "header-hide", "tcp"} {
 				if mode == "host" && strings.Contains(target, ".") {
 					continue // a label cannot contain a dot
 				}
@@ -490,10 +490,17 @@ func runC01Placement(c *cluster, placed []Placed, emit emitter, rng *rand.Rand) 
 				default:
 					// a conflicting Host label when the header names the endpoint
 					hdr := map[string]string{}
-					if mode == "header" {
+					if mode == "header" || mode == "header-hide" {
 						hdr["Host"] = "e1.piko.example.com"
 					}
-					rep = psim.Request(c.byID[entry].ProxyAddr(), mode, target, "GET", "/c01?x=1", hdr, nil)
+					reqMode := mode
+					if mode == "header-hide" {
+						// the client names the endpoint header as a hop-by-hop header: the request is still
+						// addressed to the endpoint the header names, on every hop
+						hdr["Connection"] = "x-piko-endpoint"
+						reqMode = "header"
+					}
+					rep = psim.Request(c.byID[entry].ProxyAddr(), reqMode, target, "GET", "/c01?x=1", hdr, nil)
 				}
 				s := &Step{Op: "Place", Nodes: c.ids(), Placed: placed, Entry: entry, Mode: mode, Target: target,
 					Status: rep.Status, Settled: true}
